@@ -40,6 +40,9 @@ type c18Job struct {
 	// Ticket: the goroutines draw row numbers from one shared counter until Total is reached, so that all of them are
 	// still calling AddRow when the last rows are added (with fixed shares the tail belongs to the slowest goroutine alone)
 	Ticket bool `json:"ticket"`
+	// Reuse: every goroutine fills ONE map object again and again (what a CSV ingestion loop does): a writer that
+	// keeps a reference to the caller's map beyond the call sees the next row's values
+	Reuse bool `json:"reuse"`
 }
 
 type c18Op struct {
@@ -154,6 +157,7 @@ func workerC18(args []string) int {
 				}
 				ready.Done()
 				<-gate
+				own := map[string]string{}
 				for i := 0; i < n; i++ {
 					if job.Ticket {
 						if i = int(atomic.AddInt64(&ticket, 1)) - 1; i >= job.Total {
@@ -161,6 +165,13 @@ func workerC18(args []string) int {
 						}
 					}
 					row := c18Row(g, i, job.Dup)
+					if job.Reuse {
+						clear(own)
+						for k, v := range row {
+							own[k] = v
+						}
+						row = own
+					}
 					op := c18Op{G: g, I: i}
 					var id uint32
 					var err error
@@ -245,11 +256,11 @@ func runC18(r *vf.Run) {
 					g = 2
 				}
 				id := fmt.Sprintf("job%03d-%s-n%d-g%d", k, w, total, g)
-				jobs = append(jobs, c18Job{ID: id, Writer: w, Goroutines: g, Total: total, Yield: k%3 != 2, Ticket: rep%2 == 1 || (total > 64 && k%2 == 0), Out: filepath.Join(dir, id+".updog")})
+				jobs = append(jobs, c18Job{ID: id, Writer: w, Goroutines: g, Total: total, Yield: k%3 != 2, Ticket: rep%2 == 1 || (total > 64 && k%2 == 0), Reuse: k%3 == 1, Out: filepath.Join(dir, id+".updog")})
 				k++
 				if total >= 999 || rep%4 == 0 {
 					did := fmt.Sprintf("job%03d-%s-dup-n%d-g%d", k, w, total, g)
-					jobs = append(jobs, c18Job{ID: did, Writer: w, Goroutines: g, Total: total, Yield: k%2 == 0, Dup: true, Ticket: k%4 < 2, Out: filepath.Join(dir, did+".updog")})
+					jobs = append(jobs, c18Job{ID: did, Writer: w, Goroutines: g, Total: total, Yield: k%2 == 0, Dup: true, Ticket: k%4 < 2, Reuse: k%3 == 0, Out: filepath.Join(dir, did+".updog")})
 					k++
 				}
 			}
@@ -323,8 +334,11 @@ func c18Check(r *vf.Run, cid string, job c18Job, jr c18Result) {
 	if job.Ticket {
 		r.Count("histories_with_shared_row_counter", 1)
 	}
+	if job.Reuse {
+		r.Count("histories_with_one_reused_map_per_goroutine", 1)
+	}
 	w := func(extra map[string]any) map[string]any {
-		m := map[string]any{"writer": job.Writer, "goroutines": job.Goroutines, "rows": job.Total, "yield_injection": job.Yield, "shared_row_counter": job.Ticket}
+		m := map[string]any{"writer": job.Writer, "goroutines": job.Goroutines, "rows": job.Total, "yield_injection": job.Yield, "shared_row_counter": job.Ticket, "one_map_object_reused_per_goroutine": job.Reuse}
 		for k, v := range extra {
 			m[k] = v
 		}
